@@ -269,4 +269,21 @@ CHECKS = {
         "level_text": "Seeded exploration of multi-tenant RPC histories through the real in-process server; isolation judged by per-tenant models, canonical ground truth after each step and alone-vs-interleaved non-interference.",
         "level_note": "trusted base: prost encode/decode of the harness, per-tenant model of the documented point-operation semantics, C11 reference filter semantics, own-only search reference (counts only)",
     },
+    "C14": {
+        "level": "exploration",
+        "design_ref": "DESIGN.md section 5/C14",
+        "engine": "E3 in-process server + E2 simsched (concurrent rows)",
+        "technique": "deterministic simulation: seeded write histories of one tenant near its limit against the real server run in-process, invariant evaluated after every RPC and restart; rows with 2-3 caller threads interleaved at every lock operation by the seeded scheduler",
+        "rule": "even runs: sequential history of 4-24 steps (6-50 thorough) by tenant acme (max_vectors in {1,2,3,5}, ids 1..limit+2 plus 0 and u32::MAX+1) and a bystander tenant: Insert, BulkInsert and BulkLoadHnsw of 1-5 items with duplicate ids inside the batch and rejected items "
+                "(wrong dimension, NaN/inf lane, zero vector, f32::MAX lanes), Delete (absent ids), BatchDelete by ids (duplicates, absent) and by filter, UpdateMetadata, FlushHotTier, index capacity 12 or 400, restarts on persistent configs. "
+                "odd runs: 0-6 sequential steps, then 2-3 caller threads x 1-2 RPCs (Insert, Delete, BulkInsert, BulkLoadHnsw, BatchDelete ids/filter) mostly on one id, 4 seeded schedules (random walk, sticky, PCT, bounded preemption) per program. "
+                "Invariant after every sequential RPC, after every restart and after the concurrent tail, for every tenant: server quota counter == number of canonical documents carrying the tenant's index (cold-tier ground truth); live <= max_vectors; "
+                "a single Insert answered RESOURCE_EXHAUSTED while the tenant was below its limit is a violation. evaluations = RPCs executed. distinct_nontrivial = distinct digests of (status codes, counter trajectory, decision trace).",
+        "assumptions": ["the start-up recount is a copy of the lines in main() (vsim/src/server_harness.rs)", "/usage vector_count is not judged (the usage tracker is not restored by the harness at start-up)",
+                        "rayon worker threads inside bulk loads are not scheduled by E2 (they take no engine lock)"],
+        "expected_probes": ["rpc_issued_at_the_limit", "refused_resource_exhausted", "bulk_batch_with_duplicate_ids", "bulk_load_partial_failure", "bulk_insert_partial_failure", "insert_failed_in_engine_after_reservation", "restart_recount_with_live_documents", "concurrent_rows"],
+        "tiers": {"quick": {"runs_per_worker": 1000000, "budget_s": 30}, "thorough": {"runs_per_worker": 10000000, "budget_s": 900}},
+        "level_text": "Seeded exploration of single-tenant write histories near the quota limit (sequential with restarts, and concurrent under seeded schedules) through the real in-process server; counter == live judged after every step.",
+        "level_note": "trusted base: ground truth = cold-tier metadata-index lookup of the tenant index; E2 lock model",
+    },
 }
